@@ -218,22 +218,30 @@ func checkC06(c *Ctx) {
 			if fk == "" {
 				return // logLevel etc.
 			}
-			isStore := false
+			var stores []*ssa.Store
+			loads := 0
 			for _, r := range referrers(fa) {
 				if st, ok := r.(*ssa.Store); ok && st.Addr == ssa.Value(fa) {
-					isStore = true
+					stores = append(stores, st)
+				} else if _, isDbg := r.(*ssa.DebugRef); !isDbg {
+					loads++
 				}
 			}
-			kind := "reads"
-			if isStore {
-				kind = "writes"
-				writes++
-			} else {
+			// one address value may serve a read and a write (a pointer local bound to the field)
+			var kinds []string
+			if loads > 0 || len(stores) == 0 {
+				kinds = append(kinds, "reads")
 				reads++
 			}
-			c.Check(fk == k, "C06-S2", fmt.Sprintf("separation(%s %s %s)", k, kind, f.Name()), ins.Pos(),
-				k+" converter touches only "+k+" state", fmt.Sprintf("the %s converter %s the %s field %s: constellations share or mix week state", k, kind, fk, f.Name()))
-			if isStore {
+			if len(stores) > 0 {
+				kinds = append(kinds, "writes")
+				writes++
+			}
+			for _, kind := range kinds {
+				c.Check(fk == k, "C06-S2", fmt.Sprintf("separation(%s %s %s)", k, kind, f.Name()), ins.Pos(),
+					k+" converter touches only "+k+" state", fmt.Sprintf("the %s converter %s the %s field %s: constellations share or mix week state", k, kind, fk, f.Name()))
+			}
+			for _, st := range stores {
 				// S4: no error return reachable after the store
 				q := pathQuery{goal: func(i ssa.Instruction) bool {
 					r, ok := i.(*ssa.Return)
@@ -242,12 +250,12 @@ func checkC06(c *Ctx) {
 					}
 					return !isNilConst(r.Results[len(r.Results)-1])
 				}}
-				if path, _ := q.search(ins.Block(), instrIndex(ins)); path != nil {
-					c.Fail("C06-S4", fmt.Sprintf("no-write-on-error(%s %s)", k, f.Name()), ins.Pos(), "refuted", "Handler state is written on a path that then reports an error: an illegal timestamp disturbs later times", P.blockPath(path)...)
+				if path, _ := q.search(st.Block(), instrIndex(st)); path != nil {
+					c.Fail("C06-S4", fmt.Sprintf("no-write-on-error(%s %s)", k, f.Name()), st.Pos(), "refuted", "Handler state is written on a path that then reports an error: an illegal timestamp disturbs later times", P.blockPath(path)...)
 				} else {
 					// and the store is dominated by an error test
 					dom := false
-					for _, ft := range dominatingFacts(ins.Block()) {
+					for _, ft := range dominatingFacts(st.Block()) {
 						if b, ok := ft.Cond.(*ssa.BinOp); ok && (b.Op == token.NEQ || b.Op == token.EQL) && (isNilConst(b.X) || isNilConst(b.Y)) {
 							if isErrorType(b.X.Type()) || isErrorType(b.Y.Type()) {
 								if (b.Op == token.NEQ && !ft.Val) || (b.Op == token.EQL && ft.Val) {
@@ -256,7 +264,7 @@ func checkC06(c *Ctx) {
 							}
 						}
 					}
-					c.Check(dom, "C06-S4", fmt.Sprintf("no-write-on-error(%s %s)", k, f.Name()), ins.Pos(), "state is stored only after the range check succeeded",
+					c.Check(dom, "C06-S4", fmt.Sprintf("no-write-on-error(%s %s)", k, f.Name()), st.Pos(), "state is stored only after the range check succeeded",
 						"Handler state is stored without a preceding successful range check")
 				}
 			}
